@@ -68,6 +68,26 @@ func c08probes(t []float64) []geojson.Object {
 		geojson.NewPolygon(geometry.NewPoly([]geometry.Point{pt(1, 1), pt(3, 1), pt(3, 3), pt(1, 1)}, nil, nil)),
 		geojson.NewCircle(pt(1, 1), 500000, 16),
 		geojson.NewMultiPoint([]geometry.Point{pt(1, 1), pt(4, 4)}),
+		// polygons with holes around / beside the small documents (tokens 1..7 increase in every table): a triangular hole whose
+		// bounding box reaches the rectangle documents but which does not, a square hole, two holes, a concave exterior,
+		// a bent line, degenerate rectangles, and the same shapes inside a MultiPolygon / a collection / a Feature
+		geojson.NewPolygon(geometry.NewPoly([]geometry.Point{pt(1, 1), pt(7, 1), pt(7, 7), pt(1, 7), pt(1, 1)},
+			[][]geometry.Point{{pt(3, 6), pt(6, 6), pt(6, 3), pt(3, 6)}}, nil)),
+		geojson.NewPolygon(geometry.NewPoly([]geometry.Point{pt(1, 1), pt(7, 1), pt(7, 7), pt(1, 7), pt(1, 1)},
+			[][]geometry.Point{{pt(2, 2), pt(3, 2), pt(3, 3), pt(2, 3), pt(2, 2)}}, nil)),
+		geojson.NewPolygon(geometry.NewPoly([]geometry.Point{pt(1, 1), pt(7, 1), pt(7, 7), pt(1, 7), pt(1, 1)},
+			[][]geometry.Point{{pt(4, 5), pt(6, 5), pt(6, 6), pt(4, 5)}, {pt(4, 2), pt(5, 2), pt(5, 4), pt(4, 4), pt(4, 2)}}, nil)),
+		geojson.NewPolygon(geometry.NewPoly([]geometry.Point{pt(1, 1), pt(7, 1), pt(7, 2), pt(2, 2), pt(2, 7), pt(1, 7), pt(1, 1)}, nil, nil)),
+		geojson.NewLineString(geometry.NewLine([]geometry.Point{pt(1, 4), pt(3, 4), pt(3, 1)}, nil)),
+		geojson.NewRect(geometry.Rect{Min: pt(1, 4), Max: pt(3, 4)}), geojson.NewRect(geometry.Rect{Min: pt(3, 1), Max: pt(3, 4)}),
+		geojson.NewRect(geometry.Rect{Min: pt(2, 2), Max: pt(2, 2)}),
+		geojson.NewMultiPolygon([]*geometry.Poly{
+			geometry.NewPoly([]geometry.Point{pt(1, 1), pt(3, 1), pt(3, 4), pt(1, 4), pt(1, 1)}, [][]geometry.Point{{pt(2, 2), pt(3, 2), pt(2, 3), pt(2, 2)}}, nil),
+			geometry.NewPoly([]geometry.Point{pt(4, 4), pt(6, 4), pt(5, 6), pt(4, 4)}, nil, nil)}),
+		geojson.NewGeometryCollection([]geojson.Object{geojson.NewPoint(pt(2, 3)),
+			geojson.NewPolygon(geometry.NewPoly([]geometry.Point{pt(1, 1), pt(5, 1), pt(5, 5), pt(1, 5), pt(1, 1)}, [][]geometry.Point{{pt(2, 2), pt(4, 2), pt(4, 4), pt(2, 2)}}, nil))}),
+		geojson.NewFeature(geojson.NewPolygon(geometry.NewPoly([]geometry.Point{pt(1, 1), pt(7, 1), pt(7, 7), pt(1, 7), pt(1, 1)},
+			[][]geometry.Point{{pt(3, 6), pt(6, 6), pt(6, 3), pt(3, 6)}}, nil)), ""),
 		// probes in the range of the large documents (tokens 10..63)
 		geojson.NewPoint(pt(16, 16)), geojson.NewPoint(pt(12, 10)), geojson.NewPoint(pt(25, 25)), geojson.NewSimplePoint(pt(26, 16)),
 		geojson.NewRect(geometry.Rect{Min: pt(12, 12), Max: pt(18, 18)}),
